@@ -24,7 +24,7 @@ META = {
     'required_counters': ['judged_upset', 'judged_downset', 'judged_upset_union', 'judged_downset_union',
                           'judged_empty_seeds', 'judged_abandoned', 'results_with_multipath_member',
                           'seeds_with_repeats', 'seeds_with_comparable_members', 'interleaved_traversals',
-                          'judged_orphaned_concepts', 'bigseed_cases'],
+                          'judged_orphaned_concepts', 'bigseed_cases', 'nested_traversals'],
     'shards': {'quick': 16, 'thorough': 16},
     'exhaustive': {'quick': 'all tables <= 3x3 x all concepts, all seed pairs',
                    'thorough': 'all tables <= 3x3, 3x4, 4x3, 4x4 x all concepts, all seed pairs'},
@@ -321,6 +321,19 @@ def run_case(concepts, case, spec):
                 call(list, it2)
             call(list, it1)
             COL.count('interleaved_traversals')
+    # the classic nested loop: for c in x.upset(): list(c.upset())  (same direction, same lattice)
+    for up in (True, False):
+        x = members[rng.randrange(n)] if n > 1 else members[0]
+        x = members[0] if up else members[-1]
+        outer = call(x.upset if up else x.downset)
+        if outer is not RAISED:
+            for k_, c in enumerate(outer):
+                if k_ >= 6:
+                    break
+                call(list, c.upset() if up else c.downset())
+                call(list, (lat.upset_union if up else lat.downset_union)([c, x]))
+            del outer
+        COL.count('nested_traversals')
     which = range(n) if n <= (300 if thorough else 120) else rng.sample(range(n), 300 if thorough else 120)
     for k in which:
         call(list, members[k].upset())
